@@ -6,7 +6,7 @@
   seedtest.py all [--no-proof]                      run every stored seeded defect against the check of its own property
   --rig                                             do it in a private copy of /verif against a scratch worktree (not /repo)
 """
-import json, os, shutil, subprocess, sys
+import json, os, re, shutil, subprocess, sys
 
 ROOT = "/verif"
 ENV = dict(os.environ, CARGO_NET_OFFLINE="true")
@@ -30,7 +30,9 @@ def intake(name, wt, prop):
     # 1. with the change: existing suite passes (run before the demo is copied in: a demo that needs a feature must not
     #    break the default-feature build of the workspace), demo fails
     rc_suite, out_suite = sh("cargo nextest run --workspace --offline 2>&1 | tail -5", cwd=wt)
-    suite_ok = "181 passed" in out_suite
+    # the 181 existing tests pass; a patch may bring unit tests of its own inside purl/src (then more are run)
+    ms = re.search(r"(\d+) tests run: (\d+) passed", out_suite)
+    suite_ok = bool(ms) and ms.group(1) == ms.group(2) and int(ms.group(1)) >= 181 and "failed" not in out_suite.split("tests run:")[-1]
     ran.append("with change: cargo nextest run --workspace --offline -> " + out_suite.strip().split("\n")[-1])
     os.makedirs(os.path.join(wt, "purl", "tests"), exist_ok=True)
     shutil.copy(os.path.join(d, "demo.rs"), os.path.join(wt, "purl", "tests", "seeded_demo.rs"))
